@@ -1,6 +1,85 @@
-//! Kani harnesses for nomt/src/bitbox/meta_map.rs (compiled into the real crate only under cfg(kani)).
+//! K12 (meta map): bucket classes of nomt/src/bitbox/meta_map.rs.
 #![allow(unused_imports, dead_code)]
 use super::*;
+
+pub(crate) const N: usize = 8;
+
+/// A meta map over N symbolic metadata bytes (the real constructor insists on 4096-byte pages;
+/// the methods under test only index the vector).
+pub(crate) fn any_meta_map(buckets: usize) -> MetaMap {
+    let bytes: [u8; N] = kani::any();
+    MetaMap { buckets, bitvec: bytes.to_vec() }
+}
+
+pub(crate) fn byte(m: &MetaMap, i: usize) -> u8 {
+    m.bitvec[i]
+}
+
+/// full_entry(h) always has the MSB set: it is never EMPTY and never TOMBSTONE, and it is exactly
+/// the top 7 bits of the hash under the MSB.  Loop-free over the full domain: complete.
+#[kani::proof]
+fn full_entry_class() {
+    let h: u64 = kani::any();
+    let e = full_entry(h);
+    assert!(e & FULL_MASK != 0);
+    assert!(e != EMPTY && e != TOMBSTONE);
+    assert!(e & 0x7f == (h >> 57) as u8);
+    kani::cover!(e == 0xff, "all-ones tag reachable");
+}
+
+/// set_full / set_tombstone change exactly one metadata byte and put it into the right class; the
+/// hints classify exactly (empty / tombstone / full-with-this-tag are mutually exclusive).
+#[kani::proof]
+#[kani::unwind(10)]
+fn set_and_hint_classes() {
+    let mut m = any_meta_map(N);
+    let before: [u8; N] = {
+        let mut a = [0u8; N];
+        let mut i = 0;
+        while i < N {
+            a[i] = byte(&m, i);
+            i += 1;
+        }
+        a
+    };
+    let b: usize = kani::any();
+    kani::assume(b < N);
+    let h: u64 = kani::any();
+    let other: usize = kani::any();
+    kani::assume(other < N && other != b);
+    // classification of the untouched state
+    assert!(m.hint_empty(b) == (before[b] == 0));
+    assert!(m.hint_tombstone(b) == (before[b] == 0x7f));
+    assert!(!(m.hint_empty(b) && m.hint_tombstone(b)));
+    if kani::any() {
+        m.set_full(b, h);
+        assert!(!m.hint_empty(b) && !m.hint_tombstone(b) && !m.hint_not_match(b, h));
+        assert!(byte(&m, b) & 0x80 != 0);
+    } else {
+        m.set_tombstone(b);
+        assert!(m.hint_tombstone(b) && !m.hint_empty(b) && m.hint_not_match(b, h));
+    }
+    assert!(byte(&m, other) == before[other]);
+    assert!(m.len() == N);
+    kani::cover!(true, "reachable");
+}
+
+/// full_count counts exactly the buckets whose metadata byte has the MSB set (map of N bytes).
+#[kani::proof]
+#[kani::unwind(10)]
+fn full_count_counts_full_entries() {
+    let m = any_meta_map(N);
+    let mut expect = 0usize;
+    let mut i = 0;
+    while i < N {
+        if byte(&m, i) & 0x80 != 0 {
+            expect += 1;
+        }
+        i += 1;
+    }
+    assert!(m.full_count() == expect);
+    kani::cover!(expect == 3, "mixed map reachable");
+}
 
 #[cfg(test)]
 include!("/verif/.build/playback/bitbox_meta_map.inc");
